@@ -302,6 +302,56 @@ def h_crash(ctx, table, n_ops):
         shutil.rmtree(d, ignore_errors=True)
 
 
+def h_kill(ctx):
+    """a REAL process death: a child process (real store classes, real sqlite3, no doubles) replaces / adds / deletes a session and dies
+    by os._exit when it reaches its COMMIT; the record size is the solver's choice from small to several MB (above sqlite's page cache a
+    transaction's pages are already in the database file before the commit, and only the on-disk rollback journal can take them out
+    again).  The parent reopens the file through the store's own constructor and reads it with sqlite3: every record is whole, the touched
+    one holds its previous or its new value, the file passes sqlite's integrity check"""
+    import subprocess, sys
+    d = tempfile.mkdtemp(prefix="c13k_", dir=_TMP)
+    try:
+        path = os.path.join(d, "axolotl.db")
+        size = ctx.choice("record_size", [64, 1500000, 3500000])
+        op = ctx.choice("operation", ["replace-session", "add-session", "delete-session"])
+        die_at = ctx.choice("dies_at", ["commit", "never"])
+        store, fake = open_store(path, Boundary())
+        old = b"OLD" + bytes((i * 17 + 3) % 249 for i in range(1024)) * (size // 1024)
+        store.storeSession(5, 1, Tok(old))
+        store.storeSession(6, 1, Tok(b"neighbour"))
+        abandon(fake)
+        repo = os.environ.get("YOWSUP_REPO", "/repo")
+        child = os.path.join(os.path.dirname(os.path.abspath(__file__)), "c13_child.py")
+        py = sys.executable                  # the interpreter of this check (overlay environment with the library's dependencies)
+        r = subprocess.run([py, child, repo, path, op, str(size), die_at], stdout=subprocess.PIPE, stderr=subprocess.STDOUT, timeout=120)
+        obs = [("the child process ran the operation up to the chosen point (exit %d: %s)" % (r.returncode, r.stdout.decode("utf-8", "replace")[-200:]), r.returncode in (0, 17))]
+        if r.returncode not in (0, 17):
+            return obs
+        try:
+            store2, fake2 = open_store(path, Boundary())          # restart: the store's own way of opening the file
+            abandon(fake2)
+            c = sqlite3.connect(path)
+            rows = dict(((rid, dev), bytes(rec)) for rid, dev, rec in c.execute("SELECT recipient_id, device_id, record FROM sessions").fetchall())
+            integrity = c.execute("PRAGMA integrity_check").fetchall()
+            c.close()
+        except sqlite3.DatabaseError as e:
+            return obs + [("after the death the database can be read (%s)" % e, False)]
+        new5 = {"replace-session": True, "add-session": False, "delete-session": False}[op]
+        obs.append(("sqlite's integrity check passes after the restart (%s)" % (integrity[:1],), integrity == [("ok",)]))
+        obs.append(("the neighbouring session is untouched", rows.get((6, 1)) == b"neighbour"))
+        got5, got9 = rows.get((5, 1)), rows.get((9, 1))
+        if die_at == "never":
+            obs.append(("without a death the operation is durable", (got5 is None if op == "delete-session" else got5 == old if op == "add-session" else (got5 or b"")[:3] == b"NEW")
+                        and ((got9 or b"")[:3] == b"NEW" if op == "add-session" else got9 is None)))
+        else:
+            ok5 = got5 == old or (op == "replace-session" and got5 is not None and got5[:3] == b"NEW" and len(got5) == 3 + size) or (op == "delete-session" and got5 is None)
+            ok9 = got9 is None or (op == "add-session" and got9[:3] == b"NEW" and len(got9) == 3 + size)
+            obs.append(("the touched session holds its previous or its new value, whole", ok5 and ok9))
+        return obs
+    finally:
+        shutil.rmtree(d, ignore_errors=True)
+
+
 @ST.deterministic("c13-h_durable_real")
 def h_durable_real(ctx):
     """real python-axolotl records through the public load API after close/reopen (blob fidelity, text_factory=bytes)"""
@@ -669,6 +719,7 @@ def cases(tier):
     n = 2 if tier == "quick" else 4
     cs = [dict(name="crash[%s,ops<=%d]" % (t, n), fn=h_crash, args=(t, n), max_paths=100000, timeout_s=600 if tier == "quick" else 3400, weight=10, keep_samples=10) for t in TABLES]
     cs.append(dict(name="durable[real-records]", fn=h_durable_real))
+    cs.append(dict(name="kill[child process dies at its commit, record size up to 3.5 MB]", fn=h_kill, keep_samples=18, timeout_s=600))
     ns = 2 if tier == "quick" else 3
     for t in TABLES:
         cs.append(dict(name="symbolic[%s,ops<=%d]" % (t, ns), fn=h_sym, args=(t, ns), max_paths=200000, timeout_s=600 if tier == "quick" else 3400, weight=30, keep_samples=8))
